@@ -50,10 +50,16 @@ func rebuildTokens(lb *lexer.Builder) {
 	})
 }
 
+// pbPlugLang: every builder made by newPB is a builder of the plugin language (pluglang.go).
+var pbPlugLang bool
+
 func newPB(m Mode) *parser.Builder {
 	pb := parser.NewBuilder(lexer.NewBuilder())
 	if pbRebuildTokens {
 		rebuildTokens(pb.LexerBuilder)
+	}
+	if pbPlugLang {
+		plugLangStatements(pb, plugLangLexer(pb.LexerBuilder))
 	}
 	if m.Tolerant {
 		pb.WithTolerantMode(true)
